@@ -5,6 +5,8 @@ and queried through Checker.match - directly and after save()/load() - for every
 length bound over an alphabet that hits every literal of the schema; the answers are compared
 with the reference interpreter working on the AST.
 """
+import time
+
 from . import lvs, monitors, refcodec as rc
 from .common import raising_site
 
@@ -103,7 +105,11 @@ def run(ctx):
         names = [[]] + list(lvs.all_names(alphabet, L, 1500 if ctx.quick else 8000, rng))
         budget = 4000 * (len(model.nodes) + 1) * (L + 2)
         nfail = 0
+        t_schema = time.time()
         for ni, name in enumerate(names):
+            if ni % 64 == 0 and time.time() - t_schema > (20 if ctx.quick else 60):
+                ctx.event('schema-abandoned-slow')       # generator guard only: nothing is concluded from wall time
+                break
             exp = ref.match(name)
             wn = dict(w, name=rc.name_to_uri(name, canonical=True))
             for label, ck in (('direct', checker), ('loaded', loaded)):
